@@ -8,7 +8,7 @@
 //@include calltrace_stubs.inc
 //@expect file=CPP/Clipper2Lib/include/clipper2/clipper.engine.h /double scale_ = 1\.0, invScale_ = 1\.0;/
 typedef struct { long tok; int error_code_; bool succeeded_; double scale_, invScale_; } ClipperDS;
-#define ASG_LOG __CPROVER_object_whole(g_cnt), __CPROVER_object_whole(g_seq), __CPROVER_object_whole(g_i), __CPROVER_object_whole(g_d), g_n
+#define ASG_LOG __CPROVER_object_whole(g_cnt), __CPROVER_object_whole(g_ev), g_n
 enum { FN_ILOGB = FN_ERR + 1, FN_ADDPATHS, FN_EXECINT, FN_BUILDPATHS, FN_CLEANUP, FN_TCLEAR, FN_TSETSCALE, FN_VCLEAR };
 int vf_ilogb(double x)
 LOG_REQ(FN_ILOGB) LOG_ENS(FN_ILOGB, __CPROVER_return_value, 0,0,0,0,0, x,0,0,0)
